@@ -96,6 +96,11 @@ type input struct {
 	Abi []abiArg
 	// eth
 	Msg string // hex, 32 bytes
+
+	// hist: a history of calls on long-lived chain handles (hist.go); handle 0 has ChainID,
+	// handle 1 has ChainID2, both hold the key of the only operator in OpKeys
+	ChainID2 string    `json:",omitempty"`
+	Hist     []hcallIn `json:",omitempty"`
 }
 
 type abiArg struct {
